@@ -44,4 +44,10 @@ CHECKS = {
                "placeholder"),
     "C07": _sv(sieve_checks.check_C07, "Coq proof (gate lemmas, loaded-extension monotonicity, frozen extension table obligation over regenerated tables) + correspondence + independent walk",
                "placeholder"),
+    "C13": _sv(sieve_checks.check_C13, "stateless Coq model (parse is a function of the text) + generated state inventory obligation + histories vs pristine interpreter",
+               "placeholder"),
+    "C18": _sv(sieve_checks.check_C18, "Coq proof (position arithmetic, errors raised at the current token, token-prefix determinism) + correspondence on error_pos",
+               "placeholder"),
+    "C20": _sv(sieve_checks.check_C20, "Coq proof generic in the tables (argcheck_correct for every well-formed definition) + correspondence with definitions registered at run time",
+               "placeholder"),
 }
